@@ -3,7 +3,7 @@ import PotasscoVerif.Spec.AspCalls
 namespace PotasscoVerif.Drv
 open PotasscoVerif
 
-/-- `asp <atoms a:b:c or -> <call>*`: the stable models of the rules among the calls (Spec/Asp.lean), each a sub-list of the given atoms
+/-- `asp <atoms a:b:c or -> <call>*`: the stable models of the rules and (compiled-away) externals among the calls (Spec/Asp.lean, Spec/AspCalls.lean `progOf`), each a sub-list of the given atoms
     in the order of enumeration; `x1.x2|x3|` … ; `-` for the empty model -/
 def runASP (args : List String) : String :=
   match args with
@@ -11,7 +11,7 @@ def runASP (args : List String) : String :=
     let atoms := if ats == "-" then some [] else (ats.splitOn ":").mapM String.toNat?
     match atoms, rest.mapM parseCall with
     | some atoms, some cs =>
-      let ms := Asp.stableModels (C02.rulesOf cs) atoms
+      let ms := Asp.stableModels (C02.progOf cs) atoms
       let sh (m : List Nat) : String := if m.isEmpty then "-" else ".".intercalate (m.map toString)
       "|".intercalate (ms.map sh) ++ s!" n={ms.length}"
     | _, _ => "bad-op"
